@@ -23,5 +23,5 @@ PY
   meta/seeded_confirm.sh $sid
 done
 git -C /repo worktree remove --force /tmp/wt/red-$P$R 2>/dev/null
-git -C /repo branch -D red-$P -q 2>/dev/null; git -C /repo branch -D red2-$P -q 2>/dev/null; git -C /repo branch -D red3-$P -q 2>/dev/null; git -C /repo branch -D red4-$P -q 2>/dev/null
+git -C /repo branch -D red-$P -q 2>/dev/null; git -C /repo branch -D red2-$P -q 2>/dev/null; git -C /repo branch -D red3-$P -q 2>/dev/null; git -C /repo branch -D red4-$P -q 2>/dev/null; git -C /repo branch -D red5-$P -q 2>/dev/null; git -C /repo branch -D red6-$P -q 2>/dev/null
 rm -rf /tmp/red/$P$R
